@@ -136,15 +136,7 @@ def parse_variant(text, via_path, bom, want=None):
 
 
 def render(sections, newline, final=True):
-    """newline 'mixed' = every line ends in LF or CRLF, alternating irregularly; final=False = no line terminator after the last brace"""
-    if newline != "mixed":
-        text = gen.render_sections(sections, newline)
-    else:
-        lines = gen.render_sections(sections, "\n").split("\n")[:-1]
-        text = "".join(ln + ("\r\n" if (i * 7 + len(ln)) % 3 == 0 else "\n") for i, ln in enumerate(lines))
-    if not final:
-        text = text[:-2] if text.endswith("\r\n") else text[:-1]
-    return text
+    return gen.render_sections(sections, newline, final)
 
 
 def judge_rendering(rec, sections, truth, newline, via_path, bom, baseline, light=False, final=True):
